@@ -21,7 +21,7 @@ RULE = ("SRAM geometry (size 1..256 granules, data width 8-64, granularity <= da
 BUDGET = {"quick": (16, 500), "thorough": (16, 8000)}
 ESSENTIAL = ["writable", "read_only", "partial_select_write", "held_through_ack", "changed_during_ack",
              "stb_only", "cyc_only", "read_after_write", "write_to_read_only", "refused_geometry",
-             "granularity<dw", "init_short", "init_one_shot_iterable"]
+             "granularity<dw", "init_short", "init_one_shot_iterable", "init_edited:inplace", "init_edited:setter_short"]
 ASSUMPTIONS = ["memory rows are observed through the simulator's access to lib.memory.Memory.data rows",
                "dat_r is only compared in the acknowledge cycle of a read"]
 
@@ -35,8 +35,9 @@ def _spec(draw, tier):
         size = draw(st.sampled_from([3, 0, 6]))
     init_mode = draw(st.sampled_from(["none", "short", "full", "full"]))
     init_kind = draw(st.sampled_from(["list", "list", "tuple", "generator", "iter", "map"]))
+    init_edit = draw(st.sampled_from(["none", "none", "none", "setter_full", "setter_short", "inplace", "slice"]))
     return {"size": size, "dw": dw, "g": g, "writable": draw(st.sampled_from([True, True, False])),
-            "init_mode": init_mode, "init_kind": init_kind, "dseed": draw(st.integers(0, 1 << 30)), "cycles": draw(st.integers(20, 150)),
+            "init_mode": init_mode, "init_kind": init_kind, "init_edit": init_edit, "dseed": draw(st.integers(0, 1 << 30)), "cycles": draw(st.integers(20, 150)),
             "p_hold": draw(st.sampled_from([1, 2, 3])), "p_req": draw(st.sampled_from([2, 3, 3])),
             "adr_span": draw(st.sampled_from([1, 2, 4, 0]))}
 
@@ -85,6 +86,24 @@ def check(spec, stats):
     stats.label("granularity<dw", g < dw)
     stats.label("init_short", 0 < len(init) < depth)
     image = list(init) + [0] * (depth - len(init))
+    # the init image may be changed through the `init` attribute before the SRAM is used
+    edit = spec.get("init_edit", "none")
+    if edit == "setter_full":
+        image = [hval(seed, "init2", i, dw) for i in range(depth)]
+        dut.init = list(image)
+    elif edit == "setter_short":
+        short = [hval(seed, "init3", i, dw) for i in range(max(1, depth // 2))]
+        dut.init = short
+        image = short + [0] * (depth - len(short))
+        stats.label("init_setter_shorter_image", any(init[len(short):]))
+    elif edit == "inplace":
+        for i in range(0, depth, 2):
+            image[i] = hval(seed, "init4", i, dw)
+            dut.init[i] = image[i]
+    elif edit == "slice" and depth >= 2:
+        image[0:2] = [hval(seed, "init5", 0, dw), hval(seed, "init5", 1, dw)]
+        dut.init[0:2] = image[0:2]
+    stats.label("init_edited:" + edit, edit != "none")
     nsel = dw // g
     top = sim.wrap(dut)
     st_ = {"ack": 0, "prev": None, "read_exp": None, "written": set(), "req_prev": None}
